@@ -1,5 +1,8 @@
 import Driver.Loop
 import PyGqlModel.Depth
+import PyGqlModel.DepthMerged
+import PyGqlModel.DepthFrontier
+import PyGqlModel.DepthSeparate
 import PyGqlModel.Spec.DepthSpec
 import PyGqlModel.Generated.DepthVariant
 open PyGql PyGql.Depth
@@ -108,7 +111,14 @@ def handle (j : J) : J :=
       ("rulert", .arr (grid.map fun (f, l) => resJ (ruleRT fuel l f doc (varDefsROfJson (j.getD "doc")) (rawVarsOfJson (j.getD "raw"))))),
       ("rulecur", .arr (grid.map fun (f, l) =>
         if PyGql.Generated.DepthVariant.budgeted then
-          (match ruleB l f doc (varDefsROfJson (j.getD "doc")) (rawVarsOfJson (j.getD "raw")) with
+          (match (
+              let dj := varDefsROfJson (j.getD "doc")
+              let rj := rawVarsOfJson (j.getD "raw")
+              if PyGql.Generated.DepthVariant.separateDirectives then
+                (if PyGql.Generated.DepthVariant.levelMerged then ruleM3 l f doc dj rj else ruleF3 l f doc dj rj)
+              else if PyGql.Generated.DepthVariant.levelMerged then ruleM l f doc dj rj
+              else if PyGql.Generated.DepthVariant.levelFrontier then ruleF l f doc dj rj
+              else ruleB l f doc dj rj) with
            | .error e => errJ e
            | .ok errs => .arr (errs.map fun p => J.ofNat p.1))
         else resJ (
